@@ -434,9 +434,12 @@ Qed.
 Lemma do_ack_tab s rid rest k j :
   tab_get (h_tab (hd (fst (do_ack s rid rest)))) k = Some j -> tab_get (h_tab (hd s)) k = Some j.
 Proof.
-  unfold do_ack. cbn [fst hd h_tab]. rewrite freeTracker_delkey_spec.
+  unfold do_ack. cbn [fst hd h_tab].
   destruct (acks_get _ _) as [i|]; [|auto]. destruct (nth_error _ _) as [t|]; [|auto].
-  destruct (freeTracker_keeps _); [auto|]. rewrite tab_get_del. destruct (k =? t_clid t); [discriminate | auto].
+  destruct (freeTracker_keeps _); [auto|]. destruct freeTracker_delkey.
+  - rewrite tab_get_del. destruct (k =? t_clid t); [discriminate | auto].
+  - destruct (tab_get (h_tab (hd s)) (t_clid t)) as [j'|]; [|auto]. destruct (Nat.eqb i j'); [|auto].
+    rewrite tab_get_del. destruct (k =? t_clid t); [discriminate | auto].
 Qed.
 
 Lemma Inv_ack s rid rest : Inv s -> ch_oh s = Ack rid :: rest -> Inv (fst (do_ack s rid rest)).
@@ -790,15 +793,20 @@ Proof.
         cbn [tab_get]. destruct (c =? t_clid u) eqn:Ec; [|exact A].
         apply Z.eqb_eq in Ec. subst c. congruence.
     + (* answer to a decref *)
-      unfold do_ack. cbn [fst hd h_trk h_tab]. rewrite freeTracker_delkey_spec.
+      unfold do_ack. cbn [fst hd h_trk h_tab].
       cbn [safe_op] in Hs. rewrite Hl, Hch in Hs.
       destruct (acks_get (h_acks (hd s)) rid) as [i|]; [|exact A].
       destruct (nth_error (h_trk (hd s)) i) as [t|] eqn:Ht; [|exact A].
       rewrite freeTracker_keeps_spec in *. destruct (t_recv t =? 0) eqn:Ez; cbn [negb] in *; [|exact A].
-      apply Z.eqb_eq in Ez. intros j u Hu Hr. rewrite tab_get_del. specialize (A _ _ Hu Hr).
-      destruct (t_clid u =? t_clid t) eqn:Ec; [|exact A]. exfalso.
-      apply Z.eqb_eq in Ec. rewrite Ec in A. rewrite A in Hs. apply Nat.eqb_eq in Hs. subst j.
-      rewrite Ht in Hu. inversion Hu; subst u. lia.
+      apply Z.eqb_eq in Ez.
+      assert (Del : forall j u, nth_error (h_trk (hd s)) j = Some u -> 1 <= t_recv u ->
+                                tab_get (tab_del (h_tab (hd s)) (t_clid t)) (t_clid u) = Some j).
+      { intros j u Hu Hr. rewrite tab_get_del. specialize (A _ _ Hu Hr).
+        destruct (t_clid u =? t_clid t) eqn:Ec; [|exact A]. exfalso.
+        apply Z.eqb_eq in Ec. rewrite Ec in A. rewrite A in Hs. apply Nat.eqb_eq in Hs. subst j.
+        rewrite Ht in Hu. inversion Hu; subst u. lia. }
+      destruct freeTracker_delkey; [exact Del|].
+      destruct (tab_get (h_tab (hd s)) (t_clid t)) as [j'|]; [|exact A]. destruct (Nat.eqb i j'); [exact Del | exact A].
   - unfold do_recv_ho. destruct (ch_ho s) as [|[c n rid|c k] rest]; cbn [fst]; try exact A.
     destruct (find_clid _ _) as [e|]; [|exact A]. destruct (decref n (oe_rc e)) as [[done v]|]; exact A.
   - unfold do_drop. destruct (find_proxy (h_trk (hd s)) p) as [i|]; cbn [fst]; [|exact A].
@@ -892,6 +900,156 @@ Example d16_not_safe : ~ safe_run init d16_ops.
 Proof. vm_compute. intuition discriminate. Qed.
 
 (* ------------------------------------------------------------------ *)
+(* the deletion rule as a parameter: everything about counts holds for either rule; with deletion by identity (the
+   candidate repair of D16) the same-proxy statement holds WITHOUT the safe_run guard *)
+
+Lemma step_k_current s o : step_k freeTracker_delkey s o = step s o.
+Proof. unfold step_k, step. destruct (lost s); [reflexivity|]. destruct o; reflexivity. Qed.
+
+Lemma run_k_current ops : forall s, run_k freeTracker_delkey s ops = run s ops.
+Proof. induction ops as [|o r IH]; intros s; cbn [run_k run]; [reflexivity | rewrite step_k_current; apply IH]. Qed.
+
+Definition ack_case (s : state) (o : op) : Prop := lost s = false /\ o = RecvOH /\ exists rid rest, ch_oh s = Ack rid :: rest.
+
+Lemma step_k_same k s o : ~ ack_case s o -> step_k k s o = step s o /\ safe_op s o = true.
+Proof.
+  intros N. unfold step_k, step, ack_case in *. destruct (lost s) eqn:Hl.
+  - split; [reflexivity|]. destruct o; cbn [safe_op]; try reflexivity. rewrite Hl. reflexivity.
+  - destruct o; cbn [safe_op]; try (split; reflexivity). rewrite Hl.
+    unfold do_recv_oh_k, do_recv_oh. destruct (ch_oh s) as [|[c d|rid] rest] eqn:Hch; try (split; reflexivity).
+    exfalso. apply N. repeat split; eauto.
+Qed.
+
+Lemma do_ack_k_tab k s rid rest c j :
+  tab_get (h_tab (hd (fst (do_ack_k k s rid rest)))) c = Some j -> tab_get (h_tab (hd s)) c = Some j.
+Proof.
+  unfold do_ack_k. cbn [fst hd h_tab].
+  destruct (acks_get _ _) as [i|]; [|auto]. destruct (nth_error _ _) as [t|]; [|auto].
+  destruct (freeTracker_keeps _); [auto|]. destruct k.
+  - rewrite tab_get_del. destruct (c =? t_clid t); [discriminate | auto].
+  - destruct (tab_get (h_tab (hd s)) (t_clid t)) as [j'|]; [|auto]. destruct (Nat.eqb i j'); [|auto].
+    rewrite tab_get_del. destruct (c =? t_clid t); [discriminate | auto].
+Qed.
+
+Lemma Inv_ack_k k s rid rest : Inv s -> ch_oh s = Ack rid :: rest -> Inv (fst (do_ack_k k s rid rest)).
+Proof.
+  intros I Hch. constructor.
+  - intros c. pose proof (inv_count s I c) as E. rewrite Hch in E. cbn [inflight] in E. exact E.
+  - apply (inv_recv s I).
+  - apply (inv_dpos s I).
+  - apply (inv_own s I).
+  - intros c i H. apply do_ack_k_tab in H. apply (inv_tab s I _ _ H).
+  - apply (inv_alive s I).
+  - apply (inv_pend s I).
+  - apply (inv_home s I).
+  - apply (inv_nofail s I).
+Qed.
+
+Lemma ack_case_dec s o : ack_case s o \/ ~ ack_case s o.
+Proof.
+  unfold ack_case. destruct (lost s); [right; intros (H & _); discriminate|].
+  destruct o; try (right; intros (_ & H & _); discriminate).
+  destruct (ch_oh s) as [|[c d|rid] rest]; [right; intros (_ & _ & r & q & H); discriminate | right; intros (_ & _ & r & q & H); discriminate|].
+  left. repeat split; eauto.
+Qed.
+
+Lemma step_k_ack k s o : ack_case s o -> exists rid rest, ch_oh s = Ack rid :: rest /\ step_k k s o = do_ack_k k s rid rest.
+Proof.
+  intros (Hl & -> & rid & rest & Hch). exists rid, rest. split; [exact Hch|].
+  unfold step_k. rewrite Hl. unfold do_recv_oh_k. rewrite Hch. reflexivity.
+Qed.
+
+Theorem Inv_step_k k s o : Inv s -> Inv (fst (step_k k s o)).
+Proof.
+  intros I. destruct (ack_case_dec s o) as [A|N].
+  - destruct (step_k_ack k s o A) as (rid & rest & Hch & ->). apply Inv_ack_k; assumption.
+  - destruct (step_k_same k s o N) as [-> _]. apply Inv_step, I.
+Qed.
+
+Theorem Inv_run_k k ops : forall s, Inv s -> Inv (run_k k s ops).
+Proof. induction ops as [|o r IH]; intros s I; cbn [run_k]; [exact I | apply IH, Inv_step_k, I]. Qed.
+
+(* the counting invariant does not depend on the deletion rule *)
+Theorem count_invariant_k k ops c :
+  let s := run_k k init ops in
+  rc (o_tab (ow s)) c = recv_sum (h_trk (hd s)) c + inflight (ch_oh s) c + decs (ch_ho s) c + cnt (leaked s) c.
+Proof. exact (inv_count _ (Inv_run_k k ops init Inv_init) c). Qed.
+
+Lemma Attached_step_id s o : Inv s -> Attached s -> Attached (fst (step_k DelByIdentity s o)).
+Proof.
+  intros I A. destruct (ack_case_dec s o) as [C|N].
+  - destruct (step_k_ack DelByIdentity s o C) as (rid & rest & Hch & ->).
+    unfold Attached in *. unfold do_ack_k. cbn [fst hd h_trk h_tab].
+    destruct (acks_get (h_acks (hd s)) rid) as [i|]; [|exact A].
+    destruct (nth_error (h_trk (hd s)) i) as [t|] eqn:Ht; [|exact A].
+    rewrite freeTracker_keeps_spec. destruct (t_recv t =? 0) eqn:Ez; cbn [negb]; [|exact A].
+    apply Z.eqb_eq in Ez. destruct (tab_get (h_tab (hd s)) (t_clid t)) as [j'|] eqn:G; [|exact A].
+    destruct (Nat.eqb i j') eqn:Eij; [|exact A]. apply Nat.eqb_eq in Eij. subst j'.
+    intros j u Hu Hr. rewrite tab_get_del. specialize (A _ _ Hu Hr).
+    destruct (t_clid u =? t_clid t) eqn:Ec; [|exact A]. exfalso.
+    apply Z.eqb_eq in Ec. rewrite Ec, G in A. inversion A; subst j. rewrite Ht in Hu. inversion Hu; subst u. lia.
+  - destruct (step_k_same DelByIdentity s o N) as [-> Hs]. apply Attached_step; assumption.
+Qed.
+
+Lemma Attached_run_id ops : forall s, Inv s -> Attached s -> Attached (run_k DelByIdentity s ops).
+Proof.
+  induction ops as [|o r IH]; intros s I A; cbn [run_k]; [exact A|].
+  apply IH; [apply Inv_step_k, I | apply Attached_step_id; assumption].
+Qed.
+
+(* C08, first sentence, at FULL strength for the repaired rule: in every history, a my-reference whose clid has a live proxy
+   delivers that very proxy *)
+Theorem same_proxy_with_identity_rule ops :
+  let s := run_k DelByIdentity init ops in
+  forall i t p rest,
+    lost s = false -> nth_error (h_trk (hd s)) i = Some t -> t_proxy t = Some p ->
+    ch_oh s = MyRef (t_clid t) false :: rest ->
+    snd (step_k DelByIdentity s RecvOH) = [EvDelivered p].
+Proof.
+  intros s i t p rest Hl Ht Hp Hch.
+  pose proof (Inv_run_k DelByIdentity ops init Inv_init) as I. fold s in I.
+  pose proof (Attached_run_id ops init Inv_init Attached_init) as A. fold s in A.
+  assert (Hr : 1 <= t_recv t).
+  { pose proof (inv_alive s I) as H. rewrite Forall_forall in H. apply (H t (nth_error_In _ _ Ht)). congruence. }
+  specialize (A _ _ Ht Hr).
+  unfold step_k. rewrite Hl. unfold do_recv_oh_k. rewrite Hch. unfold do_myref. rewrite A, Ht.
+  unfold get_ref. rewrite Hp. reflexivity.
+Qed.
+
+Theorem one_proxy_per_clid_with_identity_rule ops :
+  let s := run_k DelByIdentity init ops in
+  forall i j ti tj, nth_error (h_trk (hd s)) i = Some ti -> nth_error (h_trk (hd s)) j = Some tj ->
+                    t_proxy ti <> None -> t_proxy tj <> None -> t_clid ti = t_clid tj -> i = j.
+Proof.
+  intros s i j ti tj Hi Hj Pi Pj Ec.
+  pose proof (Inv_run_k DelByIdentity ops init Inv_init) as I. fold s in I.
+  pose proof (Attached_run_id ops init Inv_init Attached_init) as A. fold s in A.
+  pose proof (inv_alive s I) as H. rewrite Forall_forall in H.
+  pose proof (A _ _ Hi (H ti (nth_error_In _ _ Hi) Pi)) as E1.
+  pose proof (A _ _ Hj (H tj (nth_error_In _ _ Hj) Pj)) as E2. congruence.
+Qed.
+
+(* ... hence, as soon as the SOURCE uses the identity rule (freeTracker_delkey is read from freeYourReferenceTracker on every
+   run), the first sentence of C08 holds at full strength for `run` / `step` themselves *)
+Theorem same_proxy_if_identity_rule :
+  freeTracker_delkey = DelByIdentity ->
+  forall ops, let s := run init ops in
+  forall i t p rest,
+    lost s = false -> nth_error (h_trk (hd s)) i = Some t -> t_proxy t = Some p ->
+    ch_oh s = MyRef (t_clid t) false :: rest ->
+    snd (step s RecvOH) = [EvDelivered p].
+Proof.
+  intros E ops. cbv zeta. rewrite <- run_k_current, <- step_k_current, E. apply same_proxy_with_identity_rule.
+Qed.
+
+(* the D16 history itself: under the identity rule the fourth send arrives as the proxy that is held (2), under deletion
+   by clid as a new one (3) *)
+Example d16_repaired :
+  snd (step_k DelByIdentity (run_k DelByIdentity init d16_ops) RecvOH) = [EvDelivered 2] /\
+  snd (step_k DelByClid (run_k DelByClid init d16_ops) RecvOH) = [EvDelivered 3].
+Proof. vm_compute. split; reflexivity. Qed.
+
+(* ------------------------------------------------------------------ *)
 (* C08: home *)
 
 Theorem home_original ops :
@@ -938,6 +1096,259 @@ Qed.
 Theorem alloc_monotone ops o a :
   In a (o_alloc (ow (run init ops))) -> In a (o_alloc (ow (run init (ops ++ [o])))).
 Proof. intros H. rewrite run_app. cbn [run]. apply alloc_grows. exact H. Qed.
+
+(* ------------------------------------------------------------------ *)
+(* proxies have identity: a proxy id is handed out once, to one tracker *)
+
+Definition PW (np : Z) (trk : list tracker) : Prop :=
+  (forall i t p, nth_error trk i = Some t -> t_proxy t = Some p -> p < np) /\
+  (forall i j ti tj p, nth_error trk i = Some ti -> nth_error trk j = Some tj -> t_proxy ti = Some p -> t_proxy tj = Some p -> i = j).
+
+Lemma PW_mono np np' trk : PW np trk -> np <= np' -> PW np' trk.
+Proof. intros [H1 H2] L. split; [|exact H2]. intros i t p Ht Hp. specialize (H1 i t p Ht Hp). lia. Qed.
+
+Lemma PW_upd_sub np trk i f :
+  PW np trk -> (forall t p, nth_error trk i = Some t -> t_proxy (f t) = Some p -> t_proxy t = Some p) -> PW np (upd_nth trk i f).
+Proof.
+  intros [H1 H2] Hf.
+  assert (Old : forall j u p, nth_error (upd_nth trk i f) j = Some u -> t_proxy u = Some p ->
+                              exists u0, nth_error trk j = Some u0 /\ t_proxy u0 = Some p).
+  { intros j u p. rewrite nth_error_upd_nth. destruct (Nat.eqb j i) eqn:E; [|eauto].
+    apply Nat.eqb_eq in E. subst j. destruct (nth_error trk i) as [u0|] eqn:Hu; cbn [option_map]; [|discriminate].
+    intros Eq Hp. inversion Eq; subst u. eauto. }
+  split.
+  - intros j u p Hu Hp. destruct (Old _ _ _ Hu Hp) as (u0 & A & B). eapply H1; eauto.
+  - intros j1 j2 u1 u2 p Hu1 Hu2 Hp1 Hp2. destruct (Old _ _ _ Hu1 Hp1) as (a & A1 & A2). destruct (Old _ _ _ Hu2 Hp2) as (b & B1 & B2).
+    eapply H2; eauto.
+Qed.
+
+Lemma PW_app_none np trk t : PW np trk -> t_proxy t = None -> PW np (trk ++ [t]).
+Proof.
+  intros [H1 H2] Hn.
+  assert (Old : forall j u p, nth_error (trk ++ [t]) j = Some u -> t_proxy u = Some p -> nth_error trk j = Some u).
+  { intros j u p Hu Hp. destruct (Nat.lt_ge_cases j (List.length trk)) as [L|L].
+    - rewrite nth_error_app1 in Hu by exact L. exact Hu.
+    - rewrite nth_error_app2 in Hu by exact L. destruct (j - List.length trk)%nat as [|n]; cbn in Hu.
+      + inversion Hu; subst u. congruence.
+      + destruct n; discriminate. }
+  split.
+  - intros j u p Hu Hp. eapply H1; eauto.
+  - intros j1 j2 u1 u2 p Hu1 Hu2 Hp1 Hp2. eapply H2; eauto.
+Qed.
+
+Lemma PW_set_fresh np trk i t t' :
+  PW np trk -> nth_error trk i = Some t -> t_proxy t' = Some np -> PW (np + 1) (upd_nth trk i (fun _ => t')).
+Proof.
+  intros [H1 H2] Ht Hp'.
+  assert (Cases : forall j u p, nth_error (upd_nth trk i (fun _ => t')) j = Some u -> t_proxy u = Some p ->
+                                (j = i /\ p = np) \/ (j <> i /\ nth_error trk j = Some u)).
+  { intros j u p. rewrite nth_error_upd_nth. destruct (Nat.eqb j i) eqn:E.
+    - apply Nat.eqb_eq in E. subst j. rewrite Ht. cbn [option_map]. intros Eq Hp. inversion Eq; subst u. left. split; congruence.
+    - apply Nat.eqb_neq in E. intros Hu _. right. auto. }
+  split.
+  - intros j u p Hu Hp. destruct (Cases _ _ _ Hu Hp) as [[_ ->]|[_ Hu0]]; [lia|]. specialize (H1 _ _ _ Hu0 Hp). lia.
+  - intros j1 j2 u1 u2 p Hu1 Hu2 Hp1 Hp2.
+    destruct (Cases _ _ _ Hu1 Hp1) as [[-> E1]|[N1 A1]]; destruct (Cases _ _ _ Hu2 Hp2) as [[-> E2]|[N2 A2]].
+    + reflexivity.
+    + subst p. specialize (H1 _ _ _ A2 Hp2). lia.
+    + subst p. specialize (H1 _ _ _ A1 Hp1). lia.
+    + eapply H2; eauto.
+Qed.
+
+Definition ProxWf (s : state) : Prop := PW (h_nextpid (hd s)) (h_trk (hd s)).
+
+Lemma ProxWf_init : ProxWf init.
+Proof. split; intros i; destruct i; discriminate. Qed.
+
+Lemma ProxWf_step s o : Inv s -> ProxWf s -> ProxWf (fst (step s o)).
+Proof.
+  intros I W. unfold ProxWf in *. unfold step. destruct (lost s); [exact W|]. destruct o; cbn [fst].
+  - unfold do_send. destruct (find_obj _ _); rewrite send_spec; exact W.
+  - unfold do_recv_oh. destruct (ch_oh s) as [|[c [|]|rid] rest] eqn:Hch; cbn [fst]; try exact W.
+    rewrite do_myref_eq. unfold myref_core. destruct (myref_nth s c I) as (t & Ht & Hc). rewrite Ht.
+    assert (W0 : PW (h_nextpid (hd s)) (myref_trk s c)).
+    { unfold myref_trk. destruct (tab_get _ _); [exact W | apply PW_app_none; [exact W | reflexivity]]. }
+    unfold get_ref. destruct (t_proxy t) as [q|] eqn:Hq; cbn [fst hd h_trk h_nextpid].
+    + apply PW_upd_sub; [exact W0|]. intros u p Hu Hp. rewrite Ht in Hu. inversion Hu; subst u. cbn in Hp. congruence.
+    + eapply PW_set_fresh; [exact W0 | exact Ht | reflexivity].
+  - unfold do_recv_ho. destruct (ch_ho s) as [|[c n rid|c k] rest]; cbn [fst]; try exact W.
+    destruct (find_clid _ _) as [e|]; [|exact W]. destruct (decref n (oe_rc e)) as [[done v]|]; exact W.
+  - unfold do_drop. destruct (find_proxy _ _) as [i|]; cbn [fst hd h_trk h_nextpid]; [|exact W].
+    apply PW_upd_sub; [exact W|]. intros u q _ Hq. cbn in Hq. discriminate.
+  - unfold do_reflost. destruct (h_pend (hd s)) as [|i pend]; [exact W|]. destruct (nth_error _ _) as [t|]; [|exact W].
+    destruct (t_proxy t); [exact W|]. destruct (handleRefLost_assign (t_recv t)) as [cnt0 r'].
+    destruct (handleRefLost_skip cnt0); cbn [fst hd h_trk h_nextpid]; (apply PW_upd_sub; [exact W|]; intros u q _ Hq; exact Hq).
+  - unfold do_home. destruct (find_proxy _ _); [|exact W]. destruct (nth_error _ _); exact W.
+  - unfold do_lost. cbn [fst hd h_trk h_nextpid]. split; intros i; destruct i; discriminate.
+Qed.
+
+Lemma ProxWf_run ops : forall s, Inv s -> ProxWf s -> ProxWf (run s ops).
+Proof. induction ops as [|o r IH]; intros s I W; cbn [run]; [exact W | apply IH; [apply Inv_step, I | apply ProxWf_step; assumption]]. Qed.
+
+Lemma find_proxy_complete trk p : forall i t, nth_error trk i = Some t -> t_proxy t = Some p -> exists j, find_proxy trk p = Some j.
+Proof.
+  induction trk as [|a l IH]; intros [|i] t; cbn [nth_error find_proxy]; try discriminate.
+  - intros E Hp; inversion E; subst a. rewrite Hp, Z.eqb_refl. eauto.
+  - intros Ht Hp. destruct (IH _ _ Ht Hp) as (j & ->). destruct (t_proxy a) as [q|]; [destruct (q =? p)|]; cbn [option_map]; eauto.
+Qed.
+
+(* "proxy p designates object x": some tracker of the holder has the live proxy p, and its clid was allocated for x *)
+Definition denotes (s : state) (p x : Z) : Prop :=
+  exists i t, nth_error (h_trk (hd s)) i = Some t /\ t_proxy t = Some p /\ In (t_clid t, x) (o_alloc (ow s)).
+Definition holds (s : state) (p : Z) : Prop := exists i t, nth_error (h_trk (hd s)) i = Some t /\ t_proxy t = Some p.
+
+Lemma alloc_run ops : forall s a, In a (o_alloc (ow s)) -> In a (o_alloc (ow (run s ops))).
+Proof. induction ops as [|o r IH]; intros s a H; cbn [run]; [exact H | apply IH, alloc_grows, H]. Qed.
+
+(* trackers keep their clid, and a live proxy stays with its tracker *)
+Lemma holds_back s o p j u :
+  Inv s -> ProxWf s -> lost (fst (step s o)) = false ->
+  nth_error (h_trk (hd (fst (step s o)))) j = Some u -> t_proxy u = Some p -> p < h_nextpid (hd s) ->
+  exists u0, nth_error (h_trk (hd s)) j = Some u0 /\ t_proxy u0 = Some p /\ t_clid u0 = t_clid u.
+Proof.
+  intros I W Hl'.
+  assert (K0 : nth_error (h_trk (hd s)) j = Some u -> t_proxy u = Some p -> p < h_nextpid (hd s) ->
+               exists u0, nth_error (h_trk (hd s)) j = Some u0 /\ t_proxy u0 = Some p /\ t_clid u0 = t_clid u) by (intros; exists u; auto).
+  unfold step in *. destruct (lost s) eqn:Hl; [cbn [fst] in Hl'; congruence|]. destruct o; cbn [fst] in *.
+  - unfold do_send. destruct (find_obj _ _); rewrite send_spec; cbn [fst hd]; exact K0.
+  - unfold do_recv_oh. destruct (ch_oh s) as [|[c [|]|rid] rest] eqn:Hch; cbn [fst hd]; try exact K0.
+    rewrite do_myref_eq. unfold myref_core. destruct (myref_nth s c I) as (t & Ht & Hc). rewrite Ht.
+    unfold get_ref. destruct (t_proxy t) as [q|] eqn:Hq; cbn [fst hd h_trk]; rewrite nth_error_upd_nth; destruct (Nat.eqb j (myref_idx s c)) eqn:E.
+    + apply Nat.eqb_eq in E. subst j. rewrite Ht. cbn [option_map]. intros Eq Hp Hlt. inversion Eq; subst u. cbn in Hp. cbn [t_clid].
+      unfold myref_trk, myref_idx in *. destruct (tab_get (h_tab (hd s)) c) as [i0|] eqn:G.
+      * exists t. split; [exact Ht|]. split; [congruence | reflexivity].
+      * rewrite nth_error_app_last in Ht. inversion Ht; subst t. discriminate.
+    + intros Hu Hp Hlt. unfold myref_trk in Hu. destruct (tab_get (h_tab (hd s)) c) as [i0|]; [apply K0; assumption|].
+      destruct (Nat.lt_ge_cases j (List.length (h_trk (hd s)))) as [L|L].
+      * rewrite nth_error_app1 in Hu by exact L. apply K0; assumption.
+      * rewrite nth_error_app2 in Hu by exact L. destruct (j - List.length (h_trk (hd s)))%nat as [|n]; cbn in Hu.
+        -- inversion Hu; subst u. discriminate.
+        -- destruct n; discriminate.
+    + apply Nat.eqb_eq in E. subst j. rewrite Ht. cbn [option_map]. intros Eq Hp Hlt. inversion Eq; subst u. cbn in Hp. inversion Hp. lia.
+    + intros Hu Hp Hlt. unfold myref_trk in Hu. destruct (tab_get (h_tab (hd s)) c) as [i0|]; [apply K0; assumption|].
+      destruct (Nat.lt_ge_cases j (List.length (h_trk (hd s)))) as [L|L].
+      * rewrite nth_error_app1 in Hu by exact L. apply K0; assumption.
+      * rewrite nth_error_app2 in Hu by exact L. destruct (j - List.length (h_trk (hd s)))%nat as [|n]; cbn in Hu.
+        -- inversion Hu; subst u. discriminate.
+        -- destruct n; discriminate.
+  - unfold do_recv_ho. destruct (ch_ho s) as [|[c n rid|c k] rest]; cbn [fst hd]; try exact K0.
+    destruct (find_clid _ _) as [e|]; [|exact K0]. destruct (decref n (oe_rc e)) as [[done v]|]; cbn [fst hd]; exact K0.
+  - unfold do_drop. destruct (find_proxy _ _) as [i|]; cbn [fst hd h_trk]; [|exact K0].
+    rewrite nth_error_upd_nth. destruct (Nat.eqb j i); [|exact K0].
+    destruct (nth_error (h_trk (hd s)) j) as [u0|]; cbn [option_map]; [|discriminate]. intros Eq Hp. inversion Eq; subst u. discriminate.
+  - unfold do_reflost. destruct (h_pend (hd s)) as [|i pend]; [exact K0|]. destruct (nth_error (h_trk (hd s)) i) as [t|] eqn:Ht; [|exact K0].
+    destruct (t_proxy t) eqn:Hq; [cbn [fst hd]; exact K0|]. destruct (handleRefLost_assign (t_recv t)) as [cnt0 r'].
+    assert (K : nth_error (upd_nth (h_trk (hd s)) i (fun t0 => {| t_clid := t_clid t0; t_recv := r'; t_proxy := t_proxy t0 |})) j = Some u ->
+                t_proxy u = Some p -> p < h_nextpid (hd s) ->
+                exists u0, nth_error (h_trk (hd s)) j = Some u0 /\ t_proxy u0 = Some p /\ t_clid u0 = t_clid u).
+    { rewrite nth_error_upd_nth. destruct (Nat.eqb j i) eqn:E; [|intros; exists u; auto].
+      apply Nat.eqb_eq in E. subst j. rewrite Ht. cbn [option_map]. intros Eq Hp. inversion Eq; subst u. cbn in Hp. congruence. }
+    destruct (handleRefLost_skip cnt0); cbn [fst hd h_trk]; exact K.
+  - unfold do_home. destruct (find_proxy _ _) as [i0|]; [|exact K0]. destruct (nth_error (h_trk (hd s)) i0); cbn [fst hd]; exact K0.
+  - unfold do_lost in Hl'. cbn in Hl'. discriminate.
+Qed.
+
+Lemma denotes_step s o p x :
+  Inv s -> ProxWf s -> OwnWf s -> denotes s p x -> lost (fst (step s o)) = false -> holds (fst (step s o)) p -> denotes (fst (step s o)) p x.
+Proof.
+  intros I W _ (i & t & Ht & Hp & Ha) Hl' (j & u & Hu & Hpu).
+  assert (Hlt : p < h_nextpid (hd s)) by (destruct W as [W1 _]; eapply W1; eauto).
+  destruct (holds_back s o p j u I W Hl' Hu Hpu Hlt) as (u0 & Hu0 & Hp0 & Hc0).
+  assert (j = i) by (destruct W as [_ W2]; eapply W2; eauto). subst j. rewrite Ht in Hu0. inversion Hu0; subst u0.
+  exists i, u. repeat split; auto. rewrite <- Hc0. apply alloc_grows. exact Ha.
+Qed.
+
+Lemma lost_run_false ops : forall s, lost (run s ops) = false -> lost s = false.
+Proof.
+  induction ops as [|o r IH]; intros s H; cbn [run] in H; [exact H|]. specialize (IH _ H).
+  destruct (lost s) eqn:E; [|reflexivity]. rewrite step_lost_id in IH by exact E. cbn in IH. congruence.
+Qed.
+
+Lemma nextpid_mono_step s o : h_nextpid (hd s) <= h_nextpid (hd (fst (step s o))).
+Proof.
+  unfold step. destruct (lost s); [cbn [fst hd h_nextpid]; lia|]. destruct o; cbn [fst].
+  - unfold do_send. destruct (find_obj _ _); rewrite send_spec; cbn [fst hd h_nextpid]; lia.
+  - unfold do_recv_oh. destruct (ch_oh s) as [|[c [|]|rid] rest]; [cbn [fst hd h_nextpid]; lia | cbn [fst hd h_nextpid]; lia | | unfold do_ack; cbn [fst hd h_nextpid]; lia].
+    rewrite do_myref_eq. unfold myref_core. destruct (nth_error _ _) as [t0|]; [|cbn [fst hd h_nextpid]; lia].
+    unfold get_ref. destruct (t_proxy t0); cbn [fst hd h_nextpid]; lia.
+  - unfold do_recv_ho. destruct (ch_ho s) as [|[c n rid|c k] rest]; cbn; try lia.
+    destruct (find_clid _ _) as [e|]; [|cbn [fst hd h_nextpid]; lia]. destruct (decref n (oe_rc e)) as [[done v]|]; cbn [fst hd h_nextpid]; lia.
+  - unfold do_drop. destruct (find_proxy _ _); cbn [fst hd h_nextpid]; lia.
+  - unfold do_reflost. destruct (h_pend (hd s)); [cbn [fst]; lia|]. destruct (nth_error _ _) as [t0|]; [|cbn [fst]; lia].
+    destruct (t_proxy t0); [cbn [fst hd h_nextpid]; lia|]. destruct (handleRefLost_assign (t_recv t0)) as [c0 r0]. destruct (handleRefLost_skip c0); cbn [fst hd h_nextpid]; lia.
+  - unfold do_home. destruct (find_proxy _ _); [|cbn [fst]; lia]. destruct (nth_error _ _); cbn [fst hd h_nextpid]; lia.
+  - cbn. lia.
+Qed.
+
+Lemma nextpid_mono_run ops : forall s, h_nextpid (hd s) <= h_nextpid (hd (run s ops)).
+Proof. induction ops as [|o r IH]; intros s; cbn [run]; [lia|]. pose proof (nextpid_mono_step s o). specialize (IH (fst (step s o))). lia. Qed.
+
+(* ---- the interface the three-party model relies on, proved of the two-party model ---------------------------------- *)
+
+(* (I1) delivery: a my-reference whose clid was allocated for x is delivered as a proxy that designates x *)
+Theorem delivery_denotes ops c x rest :
+  let s := run init ops in
+  lost s = false -> ch_oh s = MyRef c false :: rest -> In (c, x) (o_alloc (ow s)) ->
+  exists p, snd (step s RecvOH) = [EvDelivered p] /\ denotes (fst (step s RecvOH)) p x /\ lost (fst (step s RecvOH)) = false.
+Proof.
+  intros s Hl Hch Ha. pose proof (Inv_reachable ops) as I. fold s in I.
+  unfold step. rewrite Hl. unfold do_recv_oh. rewrite Hch, do_myref_eq. unfold myref_core.
+  destruct (myref_nth s c I) as (t & Ht & Hc). rewrite Ht.
+  pose proof (get_ref_facts t (h_nextpid (hd s))) as G. destruct (get_ref t (h_nextpid (hd s))) as [[t' p] np].
+  destruct G as (G1 & G2 & G3 & G4). cbn [fst snd]. exists p. split; [reflexivity|]. split; [|exact Hl].
+  exists (myref_idx s c), t'. cbn [hd h_trk ow]. rewrite nth_error_upd_nth, Nat.eqb_refl, Ht. cbn [option_map].
+  repeat split; auto. rewrite G1, Hc. exact Ha.
+Qed.
+
+(* (I2) the proxy keeps designating x for as long as it is held and the connection lives *)
+Theorem denotes_persists ops ops2 p x :
+  let s := run init ops in
+  denotes s p x -> lost (run s ops2) = false -> holds (run s ops2) p -> denotes (run s ops2) p x.
+Proof.
+  cbv zeta. revert ops. induction ops2 as [|o r IH] using rev_ind; intros ops D Hl Hh; [exact D|].
+  rewrite run_app in *. cbn [run] in *. set (s1 := run (run init ops) r) in *.
+  assert (Hl1 : lost s1 = false).
+  { destruct (lost s1) eqn:E; [|reflexivity]. rewrite step_lost_id in Hl by exact E. cbn in Hl. congruence. }
+  assert (R : s1 = run init (ops ++ r)) by (unfold s1; rewrite run_app; reflexivity).
+  assert (I1 : Inv s1) by (rewrite R; apply Inv_reachable).
+  assert (W1 : ProxWf s1) by (rewrite R; apply ProxWf_run; [apply Inv_init | apply ProxWf_init]).
+  assert (O1 : OwnWf s1) by (rewrite R; apply OwnWf_run, OwnWf_init).
+  assert (Hh1 : holds s1 p).
+  { destruct Hh as (j & u & Hu & Hpu).
+    (* p was handed out before s (it designates x there), so it is below every later counter *)
+    destruct D as (i & t & Ht & Hp & _).
+    assert (Lt0 : p < h_nextpid (hd (run init ops))).
+    { pose proof (ProxWf_run ops init Inv_init ProxWf_init) as [A _]. eapply A; eauto. }
+    pose proof nextpid_mono_run as Mono.
+    assert (Lt1 : p < h_nextpid (hd s1)) by (pose proof (Mono r (run init ops)); fold s1 in H; lia).
+    destruct (holds_back s1 o p j u I1 W1 Hl Hu Hpu Lt1) as (u0 & A & B & _).
+    exists j, u0. auto. }
+  apply denotes_step; auto. apply IH; auto.
+Qed.
+
+(* (I3) a call through (k = true) / a your-reference for (k = false) a proxy that designates x is put on the wire with a
+   clid allocated for x ... *)
+Theorem call_names_object ops p x k :
+  let s := run init ops in
+  lost s = false -> denotes s p x ->
+  exists c, ch_ho (fst (step s (SendHome p k))) = ch_ho s ++ [ToOwner c k] /\ In (c, x) (o_alloc (ow (fst (step s (SendHome p k))))) /\
+            lost (fst (step s (SendHome p k))) = false.
+Proof.
+  intros s Hl (i & t & Ht & Hp & Ha).
+  pose proof (ProxWf_run ops init Inv_init ProxWf_init) as [_ W2]. fold s in W2.
+  destruct (find_proxy_complete _ _ _ _ Ht Hp) as (j & F). pose proof (find_proxy_some _ _ _ F) as (u & Hu & Hpu).
+  assert (j = i) by (eapply W2; eauto). subst j. rewrite Ht in Hu. inversion Hu; subst u.
+  unfold step. rewrite Hl. unfold do_home. rewrite F, Ht. cbn [fst ch_ho ow lost]. exists (t_clid t). auto.
+Qed.
+
+(* ... and whenever a message with a clid allocated for x is processed by the owner, it is resolved to x itself *)
+Theorem call_reaches_object ops c x k rest :
+  let s := run init ops in
+  lost s = false -> ch_ho s = ToOwner c k :: rest -> In (c, x) (o_alloc (ow s)) -> snd (step s RecvHO) = [EvHome k (Some x)].
+Proof.
+  intros s Hl Hch Ha. destruct (home_original ops c k rest Hl Hch) as (x' & Ha' & E).
+  rewrite (alloc_functional ops c x x' Ha Ha'). exact E.
+Qed.
 
 (* ------------------------------------------------------------------ *)
 (* C09 *)
